@@ -1,12 +1,12 @@
 """Replay of a failed obligation on the real code.  Run with /verif/.venv/bin/python.
 Exits 1 when the violation reproduces on the tree under /repo, 0 otherwise.
 obligation: C04/stereodescriptors.py:_StereoMixin.__eq__/Octahedral/p=-1,q=1#path1
-result differs from spatial identity: Octahedral((-3, None, None, -1, -2, None, None),-1) == Octahedral((-3, None, None, None, -2, -1, None),1); spec says True
+result differs from spatial identity: Octahedral((0, None, None, 1, 2, 3, None),-1) == Octahedral((0, None, None, 1, 2, 3, None),1); spec says True
 """
 import sys
 sys.path.insert(0, '/repo/src')
 from stereomolgraph.stereodescriptors import Octahedral
-a = Octahedral((-3, None, None, -1, -2, None, None), -1); b = Octahedral((-3, None, None, None, -2, -1, None), 1)
+a = Octahedral((0, None, None, 1, 2, 3, None), -1); b = Octahedral((0, None, None, 1, 2, 3, None), 1)
 expected = True   # spatial identity according to the oracle group of the idealised figure
 try:
     got = (a == b)
